@@ -8,7 +8,7 @@ Driver for C03. One case = one history of requests on the process-wide context p
 
   obj     = index of the pooled object the request's handler received (numbered by first appearance: measured)
   steps   = <k> (Q n | P n | H n | R n | I int | Z | V str | T str | W str str)^k     preparation of the serve path
-  dirty   = <k> (E n | A | M str str | S idx str str | C int | X str | N int)^k      what the handlers did afterwards
+  dirty   = <k> (E n | A | M str str | S idx str str | C int | X str | N int | P | D | Y str str)^k      what the handlers did afterwards
   accRef  = str    results of the four Accept* helpers on a brand-new context for this request (parameter)
   names   = <m> str^m    parameter names the probe asks for
   routes  = <k> (method version pattern intParam)^k   the registered routes; lookups = <j> (reqIndex method version path)^j:
@@ -30,6 +30,8 @@ inductive Dirty
   | accepts (hdr : Bytes)             -- an Accept* helper parsed and cached this header
   | index (n : Int)                   -- the chain ran: c.index is past the last handler
   | panics                            -- the handler panicked out of ServeHTTP (deferred releases still reset; otherwise the object is dropped)
+  | stream                            -- c.DataFromReader to a connection that dies: no field of the context changes
+  | copyEdit (k v : Bytes)            -- the handler changes the map AllParams() returned: a copy, invisible to everyone
 
 def Dirty.apply : Dirty → Ctx → Ctx
   | .errors n, c => { c with errors := c.errors ++ List.replicate n 1 }
@@ -42,6 +44,8 @@ def Dirty.apply : Dirty → Ctx → Ctx
   | .accepts h, c => { c with acceptHeader := h, acceptSpecs := 1, arena := 1 }
   | .index n, c => { c with index := n }
   | .panics, c => c
+  | .stream, c => c
+  | .copyEdit _ _, c => c
 
 def pStep : P Step := do
   let k ← tok
@@ -66,6 +70,8 @@ def pDirty : P Dirty := do
   else if k == "X" then Dirty.accepts <$> str
   else if k == "N" then Dirty.index <$> int
   else if k == "P" then pure Dirty.panics
+  else if k == "D" then pure Dirty.stream
+  else if k == "Y" then (do let a ← str; let b ← str; pure (Dirty.copyEdit a b))
   else failure
 
 structure Req where
